@@ -25,6 +25,11 @@ CONF = {
 
 def profile_for(pid, rng):
     r = rng.random()
+    if pid == "C16" and r >= 0.6 and r < 0.85:
+        # several vehicle types, each with its own rotation cycles (the loop over the types in solve_instance / internal::run
+        # and the map handed to set_next_day_transitions: seeded C16j keeps only the last type's optimised cycles)
+        return {"slots": "many", "ntypes": rng.choice([2, 3]), "maxdist": rng.choice(["small", "mid", "spread"]),
+                "ndeps": rng.choice([5, 6]), "depots": rng.choice(["ample", "absent"])}
     if pid in ("C05", "C16", "C04"):
         # several rotation cycles: maintenance slots, mid maximalDistance, spread depots
         if r < 0.6:
@@ -130,6 +135,11 @@ def failures(pid, inst, res):
         md = res.get("model_diff") or ""
         if md.startswith("transition optimiser (TOpt.v): stopped although") and " 1524 " in md:
             bad.append(("C16-optimiser-stage-skipped-or-cut-short", md[:300]))
+        # the cycles the `opt` stage carries for a type are not the ones the transition optimiser handed back for it (TWIRE:
+        # hook record of the optimiser's result against the hook snapshot of the next stage — both the code's own
+        # observations): "the reported vehicle cycles are exactly the optimiser's cycles" fails (seeded C16j)
+        if md.startswith("the cycles of the opt stage are not the ones the transition optimiser handed back"):
+            bad.append(("C16-optimised-cycles-not-carried", md[:300]))
         for k in ("WIRE", "WIREJSON", "WIRESTART"):
             v = res["wire"].get(k)
             if v is None:
